@@ -328,7 +328,7 @@ func (wk *worker) exec(c *Case, tok string) error {
 
 	var ruleConf config.MechanismConfig
 
-	if as := AssertionsConfig(c.Rule, c.Conc.Strategy); len(as) != 0 {
+	if as := AssertionsConfig(c.Rule, c.Conc.Strategy, c.IssName); len(as) != 0 {
 		ruleConf = config.MechanismConfig{"assertions": as}
 	}
 
